@@ -183,10 +183,28 @@ func inBubbleUnguarded(t *testing.T, f func()) (res bubbleResult) {
 // gohbaseGoroutines returns the stacks of goroutines that have a frame in
 // the gohbase module (excluding hook files and the harness itself).
 func gohbaseGoroutines() []string {
+	// (only goroutines of the caller's own bubble: one that an earlier case left behind is that case's finding)
+	mine := ""
+	self := make([]byte, 256)
+	if h := string(self[:runtime.Stack(self, false)]); strings.Contains(h, "synctest bubble ") {
+		h = h[strings.Index(h, "synctest bubble "):]
+		if i := strings.IndexAny(h, "]:,\n"); i > 0 {
+			mine = h[:i]
+		}
+	}
 	buf := make([]byte, 1<<20)
 	n := runtime.Stack(buf, true)
 	var out []string
 	for _, g := range strings.Split(string(buf[:n]), "\n\n") {
+		if mine != "" {
+			head := g
+			if i := strings.Index(g, "\n"); i > 0 {
+				head = g[:i]
+			}
+			if !strings.Contains(head, mine+"]") && !strings.Contains(head, mine+",") {
+				continue
+			}
+		}
 		if strings.Contains(g, "github.com/tsuna/gohbase") {
 			// skip the goroutine that is running this very function via a hook call
 			if strings.Contains(g, "gohbaseGoroutines") {
